@@ -450,5 +450,5 @@ func init() {
 	AddOp("c04qos", (*Sim).opC04Qos)
 	simrt.Register("C04", &simrt.PropSpec{Fn: runC04, NonTrivial: c04NonTrivial,
 		Rule: "mixed multi-actor histories in which providers claim several sessions of one project in one epoch with CU sums around the current allowance (allowance, +-1, halves, doubles; one tx or several; late claims for recent epochs; with and without QoS reports), plan policies with random total/epoch limits, subscription-level and admin-level policies set relative to the project's current UsedCu (half, equal, +-1, tiny: limits below usage included), downtime gaps (factor > 1), month expiry. Oracles per accepted relay: rewardedCU event attribute <= signed CuSum; growth of GetTrackedCu(subscription, provider, chain) <= signed CU of its relays and <= their pre-QoS credit; per (epoch, provider, project, chain): sum credited <= max over its payments of VerifyPairing.CuPerEpoch x GetDowntimeFactor(epoch), and <= strictest policy EpochCuLimit x factor; differential: same relay signed with and without QoS report on discarded cache contexts, credit_with <= credit_without. Non-trivial = >=3 paid relay txs, >=10 accepted ops and at least one credit clipped by a limit or lowered by QoS",
-		Real:    chainReal, Stubbed: chainStub, Assume: append([]string{"the allowance of the statement is read as the chain's own per-epoch allowance for the project (VerifyPairing.CuPerEpoch at payment time; it changes as usage accrues, so the bound is the largest value seen at the payments of that epoch/provider/project/chain), enforced per chain as ProviderConsumerEpochCu is keyed"}, chainAssume...)})
+		Real: chainReal, Stubbed: chainStub, Assume: append([]string{"the allowance of the statement is read as the chain's own per-epoch allowance for the project (VerifyPairing.CuPerEpoch at payment time; it changes as usage accrues, so the bound is the largest value seen at the payments of that epoch/provider/project/chain), enforced per chain as ProviderConsumerEpochCu is keyed"}, chainAssume...)})
 }
